@@ -38,6 +38,14 @@ def rhs_rule(ctx, rule):
 def check(ctx):
     P = ctx.P
     f = P.func(RES + "_build_matrix")
+    # ---- C02-m the configuration (p_frac, p_initial, nx, fluid) is not rewritten by simulate / recovery calls: the
+    # problem a run converges to is the documented one for the object's settings, whatever was run on it before
+    from .c10 import family_rules
+
+    try:
+        family_rules(ctx, {"b": "C02-m"})
+    except AnalysisError as e:  # the clause cannot be evaluated on this tree: the property's own rules still run
+        ctx.notes.append(f"C02-m not evaluated: {e}")
     # ---- C02-a interior stencil: moment conditions
     rows, _ = build_matrix_rows(ctx)
     row = rows["r"]
